@@ -6,6 +6,7 @@ CONSTANTS
   Modes = {"Sign", "SignAndEncrypt"}
   Moves = {"damage"}
   Damages = {"sweep.byte", "sweep.trunc"}
+  Injects = {}
   Budget = 8
   MaxChunks = 0
   Sweeps <- SweepsT
